@@ -196,4 +196,82 @@ theorem C19_regress_shared_parent :
     (run false { acts := [{ id := 7, sends := 2 }, { id := 9, sends := 1 }] } [0, 1, 0]).out = [(7, 9)] ∧
     (run true { acts := [{ id := 7, sends := 2 }, { id := 9, sends := 1 }] } [0, 1, 0]).out = [(7, 7)] := by decide
 
+/-! ## (e) several tasks sending on one socket: every message arrives whole -/
+
+/-- **A stream of messages decodes message by message**, for any number of messages, any fragmentation of the stream into
+chunks, any trailing bytes. -/
+theorem C19_stream (ms : List (List Bytes)) (rest : Bytes) :
+    ∀ (chunks : List Bytes), (∀ m ∈ ms, m ≠ []) → (∀ m ∈ ms, ∀ p ∈ m, p.length < 2 ^ 64) →
+      chunks.flatten = (ms.map encodeMultipart).flatten ++ rest → recvN ms.length chunks = .ok (ms, rest) := by
+  induction ms with
+  | nil => intro chunks _ _ h; simp [recvN, h]
+  | cons m ms ih =>
+    intro chunks hne hlen h
+    have h1 := C19_roundtrip m ((ms.map encodeMultipart).flatten ++ rest) chunks (hne m (by simp))
+      (hlen m (by simp)) (by simpa [List.append_assoc] using h)
+    unfold flatRes at h1
+    split at h1
+    · rename_i ps' cs1 heq
+      simp only [Except.ok.injEq, Prod.mk.injEq] at h1
+      obtain ⟨e1, e2⟩ := h1
+      subst e1
+      have := ih cs1 (fun m' hm' => hne m' (by simp [hm'])) (fun m' hm' => hlen m' (by simp [hm'])) e2
+      simp [recvN, heq, this]
+    · simp at h1
+
+/-- what the writes still to come look like when every sender writes its message in one piece -/
+def WholePending (msgs : List (List Bytes)) (pending : List (List Bytes)) : Prop :=
+  ∀ j, pending[j]? = some [encodeMultipart (msgs.getD j [])] ∨ pending[j]? = some [] ∨ pending[j]? = none
+
+theorem wire_whole (msgs : List (List Bytes)) : ∀ (sched : List Nat) (pending : List (List Bytes)), WholePending msgs pending →
+    ∃ order : List Nat, wire pending sched = (order.map fun i => encodeMultipart (msgs.getD i [])).flatten := by
+  intro sched
+  induction sched with
+  | nil => intro _ _; exact ⟨[], by simp [wire]⟩
+  | cons i rest ih =>
+    intro pending hw
+    rcases hw i with h | h | h
+    · -- sender i writes its whole message now
+      have hw' : WholePending msgs (pending.set i []) := by
+        intro j
+        by_cases hj : i = j
+        · subst hj
+          have hlt : i < pending.length := by
+            rcases Nat.lt_or_ge i pending.length with hl | hl
+            · exact hl
+            · rw [List.getElem?_eq_none hl] at h; simp at h
+          exact Or.inr (Or.inl (by simp [List.getElem?_set, hlt]))
+        · rw [List.getElem?_set_ne hj]; exact hw j
+      obtain ⟨order, ho⟩ := ih (pending.set i []) hw'
+      exact ⟨i :: order, by simp [wire, h, ho]⟩
+    · obtain ⟨order, ho⟩ := ih pending hw
+      exact ⟨order, by simp [wire, h, ho]⟩
+    · obtain ⟨order, ho⟩ := ih pending hw
+      exact ⟨order, by simp [wire, h, ho]⟩
+
+/-- **Concurrent senders.**  However many tasks send on one socket and in whatever order the scheduler lets them write, the
+bytes on the wire are a concatenation of WHOLE encoded messages (so by `C19_stream` the peer reads exactly those messages) –
+because `send_multipart` hands each message to the transport in one write. -/
+theorem C19_concurrent_senders (msgs : List (List Bytes)) (sched : List Nat) :
+    ∃ order : List Nat, wire (msgs.map (senderWrites true)) sched = (order.map fun i => encodeMultipart (msgs.getD i [])).flatten := by
+  apply wire_whole
+  intro j
+  rcases Nat.lt_or_ge j msgs.length with hl | hl
+  · left
+    simp [senderWrites, List.getElem?_map, List.getElem?_eq_getElem hl, List.getD_eq_getElem?_getD]
+  · right; right
+    simp [List.getElem?_eq_none, hl]
+
+/-- the code as it is has that shape (flag extracted from `ZmqSocket.send_multipart` on every run) -/
+theorem C19_concurrent_senders_current (msgs : List (List Bytes)) (sched : List Nat) :
+    Current.oneWrite = true ∧
+    ∃ order : List Nat, wire (msgs.map (senderWrites Current.oneWrite)) sched = (order.map fun i => encodeMultipart (msgs.getD i [])).flatten :=
+  ⟨rfl, C19_concurrent_senders msgs sched⟩
+
+/-- with one write per frame two senders' frames interleave: the peer reads two messages that were never sent -/
+theorem C19_regress_frame_by_frame_writes :
+    (recvN 2 [wire ([[[1], [2]], [[3], [4]]].map (senderWrites false)) [0, 1, 0, 1]]).toOption = some ([[[1], [3], [2]], [[4]]], []) ∧
+    (recvN 2 [wire ([[[1], [2]], [[3], [4]]].map (senderWrites true)) [0, 1, 0, 1]]).toOption = some ([[[1], [2]], [[3], [4]]], []) := by
+  decide
+
 end PsModel.C19
